@@ -33,6 +33,7 @@ func runC18(c *core.Ctx) {
 	ruleReaderImmutable(c)
 	rulePackageState(c)
 	ruleNoForeignAppend(c, "C18-R7", 8, "pdf")
+	ruleCloseOnce(c)
 }
 
 // accessesField lists the vertices of g that mention field `field` of pdf.Extractor.
@@ -921,5 +922,111 @@ func ruleNoForeignAppend(c *core.Ctx, rule string, floor int, pkgs ...string) {
 		}
 		o.Count(1)
 		o.Require(n >= floor, "only %d appends to fields found", n)
+	})
+}
+
+// ruleCloseOnce (C18-R8): decoded-stream readers wrap pooled decompressors
+// (pooledZlibReader.Close puts the zlib reader back into a package-level
+// sync.Pool).  Closing such a reader twice puts the same decompressor into
+// the pool twice; the next two streams opened anywhere in the process then
+// share it and read each other's data.  For every local variable that holds
+// the result of DecodeStream / Stream.NewReader / Cursor.StreamReader /
+// RawStreamReader: a deferred Close excludes any explicit Close, and no
+// explicit Close reaches another one without the variable being reassigned.
+func ruleCloseOnce(c *core.Ctx) {
+	acquire := map[string]bool{"pdf.DecodeStream": true, "pdf.RawStreamReader": true, "pdf.(*Stream).NewReader": true, "pdf.Cursor.StreamReader": true, "pdf.Cursor.DecodeStream": true}
+	n := 0
+	var bad []string
+	var badSites []core.Site
+	for _, pkg := range c.Prog.RepoPkgs() {
+		for _, fn := range c.Prog.Funcs(pkg) {
+			info := fn.Info()
+			g := fn.Graph()
+			// variables holding acquired readers
+			vars := map[types.Object]bool{}
+			ast.Inspect(fn.Decl.Body, func(m ast.Node) bool {
+				as, ok := m.(*ast.AssignStmt)
+				if !ok || len(as.Rhs) != 1 {
+					return true
+				}
+				call, ok := ast.Unparen(as.Rhs[0]).(*ast.CallExpr)
+				if !ok || !acquire[core.CalleeKey(info, call)] {
+					return true
+				}
+				if obj := core.ObjOf(info, as.Lhs[0]); obj != nil {
+					vars[obj] = true
+				}
+				return true
+			})
+			for x := range vars {
+				n++
+				deferred := false
+				for _, ds := range g.Defers {
+					closes := false
+					ast.Inspect(ds.Call, func(m ast.Node) bool {
+						if call, ok := m.(*ast.CallExpr); ok {
+							if sel, ok := call.Fun.(*ast.SelectorExpr); ok && sel.Sel.Name == "Close" && core.ObjOf(info, sel.X) == x {
+								closes = true
+							}
+						}
+						return true
+					})
+					if closes {
+						deferred = true
+					}
+				}
+				var explicit []*core.V
+				for _, v := range g.Vs {
+					if v.AST == nil {
+						continue
+					}
+					if _, isDefer := v.AST.(*ast.DeferStmt); isDefer {
+						continue
+					}
+					var node ast.Node = v.AST
+					if v.Cond != nil && v.Cond.Expr != nil {
+						node = v.Cond.Expr
+					}
+					found := false
+					ast.Inspect(node, func(m ast.Node) bool {
+						if _, isLit := m.(*ast.FuncLit); isLit {
+							return false
+						}
+						if call, ok := m.(*ast.CallExpr); ok {
+							if sel, ok := call.Fun.(*ast.SelectorExpr); ok && sel.Sel.Name == "Close" && core.ObjOf(info, sel.X) == x {
+								found = true
+							}
+						}
+						return true
+					})
+					if found {
+						explicit = append(explicit, v)
+					}
+				}
+				if deferred && len(explicit) > 0 {
+					// an explicit close on a path that also runs the deferred one: unless the function cannot return after it... it always does
+					bad = append(bad, c.Prog.Pos(explicit[0].AST.Pos())+": "+x.Name()+" is closed explicitly in "+fn.Key+" although a deferred Close of the same reader is pending")
+					badSites = append(badSites, fn.Site(explicit[0].AST, "second close"))
+				}
+				defs := defVertices(g, x)
+				for _, e1 := range explicit {
+					for _, e2 := range explicit {
+						if e1 != e2 && g.ReachFrom(e1, false, core.AvoidVs(defs...))[e2] {
+							bad = append(bad, c.Prog.Pos(e2.AST.Pos())+": "+x.Name()+" is closed at "+c.Prog.Pos(e1.AST.Pos())+" and again here in "+fn.Key)
+							badSites = append(badSites, fn.Site(e2.AST, "second close"))
+						}
+					}
+				}
+			}
+		}
+	}
+	c.Check("C18-R8", "decoded-readers/close-once", "no decoded-stream reader is closed twice on one path (its pooled decompressor would be handed to two later streams)", func(o *core.Ob) {
+		o.Count(n)
+		o.Fact("%d reader variables inspected", n)
+		o.Require(n >= 5, "only %d reader variables found", n)
+		o.Sites = append(o.Sites, badSites...)
+		for _, b := range bad {
+			o.Fail("%s", b)
+		}
 	})
 }
